@@ -122,6 +122,12 @@ def family_K(n):
     out.append(("K/first_prints_second_spins", HDR + "@constexpr\ndef a(x):\n    print(\"dbg\")\n    return x\n@constexpr\ndef b(x):\n    while True:\n        pass\ndb.Setting = a(%d)\nd1.Setting = b(2)\n" % n))
     out.append(("K/first_raises_second_spins", HDR + "@constexpr\ndef a(x):\n    return 1 // (x - x)\n@constexpr\ndef b(x):\n    while True:\n        pass\ndb.Setting = a(%d)\nd1.Setting = b(2)\n" % n))
     out.append(("K/first_ok_second_sleeps_third_spins", HDR + "@constexpr\ndef a(x):\n    return x + %d\n@constexpr\ndef b(x):\n    import time\n    time.sleep(5)\n    return x\n@constexpr\ndef c(x):\n    while True:\n        pass\ndb.Setting = a(1)\nd1.Setting = 1 // 0\nd2.Setting = b(2)\nd3.Setting = c(3)\n" % n))
+    # a constexpr result that is a (mutable) list, used where the code generator builds tables from it: iteration and a
+    # run-time index (jump table, odd and even length).  A cached result handed out by reference and modified by a
+    # later pass changes what the *next* compilation of the same program sees.
+    out.append(("K/list_runtime_index_odd", HDR + "@constexpr\ndef table():\n    return [10 * k + %d for k in range(7)]\nT = table()\nfor v in T:\n    db.Setting = v\n    yield_()\ni = d0.Setting\ndb.Setting = T[i]\n" % (n + 3)))
+    out.append(("K/list_runtime_index_even", HDR + "@constexpr\ndef table(m):\n    return [k * k + m for k in range(8)]\nT = table(%d)\ni = d0.Setting\nd1.Setting = T[i]\nd2.Setting = T[0] + T[7]\n" % (n + 1)))
+    out.append(("K/list_iterated_twice", HDR + "@constexpr\ndef steps():\n    return [%d, 5, 8, 13, 21]\nfor st in steps():\n    db.Setting = st\nfor st in steps():\n    d1.Setting = st\nS = steps()\ni = d0.Setting\nd2.Setting = S[i]\n" % (n + 2)))
     out.append(("K/many_calls", HDR + "@constexpr\ndef f(x):\n    return x * x + %d\n" % n + "".join("d%d.Setting = f(%d)\n" % (i % 6, i) for i in range(7))))
     # the same constexpr function and call further down in the file (as after the user inserted lines above it):
     # identical evaluation script, different position of the call
@@ -195,6 +201,10 @@ def family_D(n):
         ("D/sp_augment", HDR + "sp += %d\nsp += 2\nx = pop()\ndb.Setting = x\n" % (n + 1)),
         ("D/ra_assign", HDR + "ra = %d\ndb.Setting = ra\n" % (n + 3)),
         ("D/sp_read", HDR + "db.Setting = sp\nsp = sp + %d\n" % (n + 1)),
+        # general-purpose hardware registers named explicitly (whatever the compiler makes of them, it must make the
+        # same of the next program as a fresh process would: register pools are per compilation)
+        ("D/named_registers_read", HDR + "x = d0.Setting\ny = d1.Setting\ndb.Setting = x * y + r0 + r7 + %d\n" % n),
+        ("D/named_registers_write", HDR + "r1 = d0.Setting\nr15 = r1 + %d\ndb.Setting = r15\nz = d1.Setting\nd2.Setting = z * z\n" % (n + 1)),
         ("D/plain_then", HDR + "p = SolarPanel(d1)\np.Horizontal = %d\nq = SolarPanel(d2)\nq.Horizontal = p.Horizontal\n" % v),
         ("D/reassign_error", HDR + "p = SolarPanel(d1)\np = SolarPanel(d2)\np.Horizontal = %d\n" % v),
     ]
